@@ -204,6 +204,21 @@ func eval(fr *Frame, v ssa.Value, f Facts) int8 {
 		if v.Op == token.NOT {
 			return -eval(fr, v.X, f)
 		}
+		// a result spilled to a local because of a defer: `*t0 = false; rundefers; t8 = *t0; return t8`
+		if al, ok := v.X.(*ssa.Alloc); ok && v.Op == token.MUL && !al.Heap && v.Block() != nil {
+			var last *ssa.Store
+			for _, in := range v.Block().Instrs {
+				if in == ssa.Instruction(v) {
+					break
+				}
+				if st, ok := in.(*ssa.Store); ok && st.Addr == ssa.Value(al) {
+					last = st
+				}
+			}
+			if last != nil {
+				return eval(fr, last.Val, f)
+			}
+		}
 	case *ssa.BinOp:
 		if v.Op == token.EQL || v.Op == token.NEQ {
 			var r int8
